@@ -1,4 +1,4 @@
-(* driver.ml — hand-written (trusted) runner of the extracted Coq Model and Spec.
+(* common.ml — shared part of the hand-written (trusted) runner of the extracted Coq Model and Spec.
    Reads the same case lines as the C++ drivers (see drivers/common.hpp) and
    prints, per case, three TAB separated fields:
      <model result> TAB <spec result> TAB <in-domain flag 0/1>
@@ -8,7 +8,6 @@
 open BinNums
 open Datatypes
 open Base
-open Index
 module Z = BinInt.Z
 (* the extraction emits modules called List/Bool/Nat; the OCaml ones are reached through Stdlib *)
 module List = Stdlib.List
@@ -62,6 +61,9 @@ let parse_arg t =
 let show_list l = String.concat "," (List.map string_of_z l)
 let ok_list l = "ok " ^ show_list l
 let ok_z z = "ok " ^ string_of_z z
+let show_arr shape elems = "ok " ^ show_list shape ^ " ;" ^ (if elems = [] then "" else " " ^ show_list elems)
+let getA = function A (s, d) -> (s, d) | _ -> failwith "expected array"
+let show_opt f = function Some x -> f x | None -> "nothing"
 let getL = function L l -> l | _ -> failwith "expected list"
 let getI = function I z -> z | _ -> failwith "expected int"
 let getS = function Str s -> s | _ -> failwith "expected string"
@@ -78,70 +80,9 @@ let z32 = z_of_int 32
 let pow2 w = Z.pow (z_of_int 2) w
 let zlt a b = Z.ltb a b
 
-(* ---------- C01 ---------- *)
-(* width of the element type behind a container kind tag *)
-let kind_width k = if k = "veci" || k = "arri" then z32 else z64
-let () =
-  register "strides" (fun a -> match a with
-    | [k; s] -> let s = getL s and w = kind_width (getS k) in
-        { model = ok_list (compute_strides_w w s); spec = ok_list (strides s);
-          dom = posb s && zlt (prod s) (pow2 w) }
-    | _ -> failwith "strides");
-  register "product" (fun a -> match a with
-    | [k; s] -> let s = getL s and w = kind_width (getS k) in
-        (* signed 32-bit element types overflow is UB; domain keeps below 2^31 *)
-        let lim = if w = z32 then pow2 (z_of_int 31) else pow2 w in
-        { model = ok_z (product_w w s); spec = ok_z (prod s); dom = posb s && zlt (prod s) lim }
-    | _ -> failwith "product");
-  register "offset" (fun a -> match a with
-    | [_; i; st] -> let i = getL i and st = getL st in
-        (* spec: plain dot product; domain: equal lengths, no 64-bit wrap *)
-        let dot = List.fold_left2 (fun acc x y -> Z.add acc (Z.mul x y)) Z0 i st in
-        { model = ok_z (compute_offset_w z64 i st); spec = ok_z dot;
-          dom = zlt dot (pow2 z64) && not (zlt dot Z0) }
-    | _ -> failwith "offset");
-  register "indices" (fun a -> match a with
-    | [_; k; s] -> let k = getI k and s = getL s in
-        let m = compute_indices k s in
-        (* spec (stride- and division-free): the unique in-bounds index whose Horner rank is k *)
-        let sp = if inbb m s && horner Z0 m s = k then ok_list m else "spec-mismatch" in
-        { model = ok_list m; spec = sp;
-          dom = posb s && not (zlt k Z0) && zlt k (prod s) && zlt (prod s) (pow2 z64) }
-    | _ -> failwith "indices");
-  register "roundtrip" (fun a -> match a with
-    | [_; k; s] -> let k = getI k and s = getL s in
-        { model = ok_z (compute_offset (compute_indices k s) (compute_strides s)); spec = ok_z k;
-          dom = posb s && not (zlt k Z0) && zlt k (prod s) && zlt (prod s) (pow2 z64) }
-    | _ -> failwith "roundtrip");
-  register "ndenum" (fun a -> match a with
-    | [_; s] -> let s = getL s in
-        let show ll = "ok " ^ String.concat " ; " (List.map show_list ll) in
-        { model = show (List.map (ndindex s) (zrange (ndindex_size s))); spec = show (lex_enum s); dom = posb s }
-    | _ -> failwith "ndenum");
-  let lay a = match getS a with "row" -> RowMajor | "col" -> ColMajor | _ -> failwith "layout" in
-  (* reference for a layout offset without strides: Horner rank, of the reversed index for column-major *)
-  let spec_off l s i = match l with RowMajor -> horner Z0 i s | ColMajor -> horner Z0 (List.rev i) (List.rev s) in
-  register "aget" (fun a -> match a with
-    | [l; s; i] -> let l = lay l and s = getL s and i = getL i in
-        { model = ok_z (layout_offset l s i); spec = ok_z (spec_off l s i); dom = posb s && inbb i s }
-    | _ -> failwith "aget");
-  register "asetget" (fun a -> match a with
-    | [l; s; i] -> let l = lay l and s = getL s and i = getL i in
-        { model = "ok " ^ string_of_z (layout_offset l s i); spec = "ok " ^ string_of_z (spec_off l s i); dom = posb s && inbb i s }
-    | _ -> failwith "asetget");
-  register "aenum" (fun a -> match a with
-    | [l; s] -> let l = lay l and s = getL s in
-        let show f = "ok" ^ String.concat "" (List.map (fun i -> " " ^ string_of_z (f i)) (lex_enum s)) in
-        { model = show (layout_offset l s); spec = show (spec_off l s); dom = posb s }
-    | _ -> failwith "aenum");
-  register "ameta" (fun a -> match a with
-    | [_; s] -> let s = getL s in
-        let r = "ok " ^ show_list s ^ " ; " ^ show_list (compute_strides s) ^ " ; " ^ string_of_z (product s) in
-        { model = r; spec = "ok " ^ show_list s ^ " ; " ^ show_list (strides s) ^ " ; " ^ string_of_z (prod s); dom = posb s }
-    | _ -> failwith "ameta")
 
 (* ---------- main loop ---------- *)
-let () =
+let run () =
   try
     while true do
       let line = input_line stdin in
